@@ -234,16 +234,25 @@ class UpdaterModel:
         if recv_term is not None:
             okp = T('field', T('as', recv_term, 'Ok'), '0')
             info['payload'] = okp
+            # the message variants this path is taken for: everything its atoms on discr(payload) leave over (a `match`, a
+            # chain of `==` tests against known variants, a table scan ...)
+            poss = set(self.msg_names)
+            excluded = set()
             for term, op, val, _ in p.conds:
                 if term == T('discr', recv_term) and op == '==':
                     info['recv_err'] = (val == 1)
                 if term == T('discr', okp):
                     if op == '==':
-                        info['msg'] = val
-                        info['msg_name'] = self.msg_names.get(val, str(val))
+                        poss &= {val}
                     else:
-                        info['msg'] = 'other'
-                        info['msg_name'] = 'other(not %s)' % sorted(val)
+                        poss -= set(val)
+                        excluded |= set(val)
+            if len(poss) == 1 and (excluded or len(self.msg_names) == 1 or any(t_ == T('discr', okp) and o_ == '==' for t_, o_, _, _ in p.conds)):
+                info['msg'] = next(iter(poss))
+                info['msg_name'] = self.msg_names.get(info['msg'], str(info['msg']))
+            elif excluded and poss:
+                info['msg'] = 'other'
+                info['msg_name'] = 'other(not %s)' % sorted(excluded)
         # field stores into the updater at the end of the path (dotted paths; struct values are expanded)
         for key, v in p.state.store.items():
             base, proj = key
